@@ -47,6 +47,7 @@ impl<T: Copy + Number> Vector<T> {
     /// Return the sum of all the elements in the vector
     #[inline]
     pub fn sum(&self) -> T {
+        if self.size() == 0 { return T::zero(); } // the empty sum ( size() - 1 underflowed )
         self.sum_slice( 0, self.size() - 1 )
     }
 
@@ -66,6 +67,7 @@ impl<T: Copy + Number> Vector<T> {
     /// Return the product of all the elements in the vector
     #[inline]
     pub fn product(&self) -> T {
+        if self.size() == 0 { return T::one(); } // the empty product ( size() - 1 underflowed )
         self.product_slice( 0, self.size() - 1 )
     }
 
